@@ -33,7 +33,12 @@ inductive Base where
   | root | self | threadSelf
 deriving DecidableEq, Repr, Inhabited
 
-/-- `ProcfsBase::into_path(Some(proc_root))` -/
+/-- `ProcfsBase::into_path(Some(proc_root))`.  For `ProcThreadSelf` the candidate spellings
+are probed with `exists_at`, which builds no error value when a candidate is missing (so a
+missing candidate costs exactly one `fstatat`), and when none of them exists the first
+spelling `thread-self` is returned instead of panicking: the lookup that follows then
+reports the missing directory as an ordinary error (repair of finding F26).  The function
+therefore never fails. -/
 def intoPath (base : Base) (procRoot : Fd) : M Bytes :=
   match base with
   | .root => pure Path.dot
@@ -41,9 +46,9 @@ def intoPath (base : Base) (procRoot : Fd) : M Bytes :=
   | .threadSelf => do
     let tid ← (Sys.gettid : Prog Nat)
     let rec probe : List Bytes → M Bytes
-      | [] => throw (.panic "at least one candidate /proc/thread-self path should work")
+      | [] => pure b!"thread-self"
       | cand :: rest => do
-        if ← M.isOk (Sys.fstatat procRoot cand) then pure cand else probe rest
+        if ← (Sys.existsAt procRoot cand : Prog Bool) then pure cand else probe rest
     probe (Sys.threadSelfCandidates tid)
 
 /-- `fetch_mnt_id` -/
